@@ -72,7 +72,7 @@ func TestMain(m *testing.M) {
 		Property: "C10", Level: "exploration",
 		Rule: "rapid draws a trie content (1..10 keys over prefix-sharing 32-byte keys; in memory or committed at a drawn collapse level), a block number in 1..total, and a tamper script of 1..3 edits applied to the decoded honest proof: scale a branch's child weights, swap two sibling blobs, replace a child hash, edit an embedded short child's key/value hash, substitute a proof element by an element of another proof of the same trie or of another trie, drop/duplicate/reorder elements, insert an element of another proof (mostly appended after the last element), change claimed Hash fields, change value bytes or weight in the leaf, ask for a different block, raw bit flips (and, unless listed as a known finding, move weight between children of a branch keeping the sum). " +
 			"Oracle: the honest proof verifies in a fresh trie to (trusted root, owner's value); for ANY submitted bytes, if VerifyBlockProof returns no error and the returned hash equals the trusted root, the returned value must be the value of the true owner of the block asked for. Errors and other hashes are fine; panics are failures. " +
-			"Non-trivial = the tampered proof differs from the honest one, still decodes as CBOR with decodable nodes, and reaches the verifier's hash/weight logic (not rejected at the first decode); distinct = distinct (content, block, tampered bytes).",
+			"The trie a proof is taken from was reached by a history (further updates and deletes after hashes were computed); tamper kinds include inserting an element of another proof (mostly appended at the end); every tampered proof is judged by a fresh verifier and by one that verified the honest proof before. Non-trivial = the tampered proof differs from the honest one, still decodes as CBOR with decodable nodes, and reaches the verifier's hash/weight logic (not rejected at the first decode); distinct = distinct (content, block, tampered bytes).",
 		Assumptions: []string{"the trusted root is the independent reference root of the content", "sha3 collision resistance"},
 	})
 	ev.Main(m)
